@@ -13,6 +13,7 @@ package mapper
 import (
 	"context"
 	"reflect"
+	"slices"
 	"strings"
 
 	"github.com/sourcenetwork/immutable"
@@ -737,6 +738,25 @@ func appendUnderlyingAggregates(
 			aggregate.dependencyIndexes = append(aggregate.dependencyIndexes, newAggregate.field.Index)
 		}
 	}
+
+	// Aggregates are executed in reverse order, so an aggregate of the request that is (re)used as
+	// a dependency must come after the aggregates that depend on it.
+	isDependency := make(map[int]bool)
+	for _, aggregate := range aggregates {
+		for _, dependencyIndex := range aggregate.dependencyIndexes {
+			isDependency[dependencyIndex] = true
+		}
+	}
+	slices.SortStableFunc(aggregates, func(a, b *aggregateRequest) int {
+		switch {
+		case isDependency[a.field.Index] == isDependency[b.field.Index]:
+			return 0
+		case isDependency[b.field.Index]:
+			return -1
+		default:
+			return 1
+		}
+	})
 	return aggregates
 }
 
